@@ -4,7 +4,9 @@ CONSTANTS
   SemSize = 2
   Kind = "errcb"
   MayFail = {1, 2, 3}
+  EndOrder = "cancel-release"
+  AcquireAnswer = "cause"
   ParentMay = TRUE
-INVARIANTS ErrfOncePerFailure TypeOK WaitNilAfterAll NoAcceptAfterDone
+INVARIANTS ErrfOncePerFailure TypeOK WaitNilAfterAll NoAcceptAfterDone RunReturnsFirstError
 PROPERTIES AcceptedEnds DriverReturns
 CHECK_DEADLOCK FALSE
